@@ -69,7 +69,9 @@ theorem event_error_iff_uncaught_panic {s : State} (hq : Quiet s) (mi : Nat) (ki
   exact ⟨l, fm, sm, sm.errors, by rw [h1]; simp [List.getElem?_set_self hlt], h7⟩
 
 /-- what `at_sim_end` of one module reports: the panic of the callback itself if it is not caught,
-    otherwise one `JoinError` per panicked task handed to `try_join` (whatever the stereotype) -/
+    otherwise one `JoinError` per panicked task handed to `try_join`, then, in registration order,
+    one per task handed to `join` that is not finished, has panicked or was cancelled by a shutdown
+    (whatever the stereotype) -/
 theorem sim_end_reports (s : State) (mi : Nat) (m : ModRt) (hm : s.mods[mi]? = some m) :
     let env := s.env mi
     let mb := m.bump env.now
@@ -77,7 +79,8 @@ theorem sim_end_reports (s : State) (mi : Nat) (m : ModRt) (hm : s.mods[mi]? = s
     let c := catchPanic mi r
     let r2 := if r.panicked && c.2.isEmpty then execIdle env c.1 r.es else { r with mod := c.1 }
     (s.moduleEnd mi).errors =
-      s.errors ++ (if !c.2.isEmpty then c.2 else List.replicate r2.mod.joinPanics (ErrKind.join, mi)) ∧
+      s.errors ++ (if !c.2.isEmpty then c.2
+        else List.replicate r2.mod.joinPanics (ErrKind.join, mi) ++ mustErrs mi r2.mod.must) ∧
     c.2 = (if r.panicked && !m.catches then [(ErrKind.panic, mi)] else []) := by
   intro env mb r c r2
   constructor
@@ -163,7 +166,7 @@ example : ((((State.init (cfgP false)).simStart.steps 1).mods[0]?).map (·.activ
 
 /-- module 0 spawns a joined task that panics; the stereotype catches -/
 def q2 : Prog :=
-  { onMsg := fun id => if id = 1 then [.spawn 3 2 true true] else [.log id],
+  { onMsg := fun id => if id = 1 then [.spawn 3 2 true true false] else [.log id],
     onStart := fun _ => [], onEnd := [], onTask := fun _ => [.panic] }
 def cfgJ : Config :=
   { mods := [⟨q2, 1, true⟩], links := [], inits := [(0, 1, 3), (0, 2, 9)] }
@@ -177,7 +180,7 @@ theorem joined_task_panic_ignores_stereotype_witness :
 
 /-- module 0 spawns a task (sleep 4) and panics in a later handler before the task is due -/
 def q3 : Prog :=
-  { onMsg := fun id => if id = 1 then [.spawn 3 4 false false] else [.panic],
+  { onMsg := fun id => if id = 1 then [.spawn 3 4 false false false] else [.panic],
     onStart := fun _ => [], onEnd := [], onTask := fun _ => [.log 33] }
 def cfgE : Config :=
   { mods := [⟨q3, 1, false⟩, ⟨q1, 1, false⟩], links := [], inits := [(0, 1, 3), (0, 2, 5), (1, 4, 20)] }
